@@ -68,6 +68,31 @@ claim("C12", "other",
       "static analysis: partial evaluation on symbolic data, order-abstract region enumeration, call-site rules",
       "DESIGN.md §5 C12")
 
+claim("C15", "other",
+      "Both crossing detectors (vectorised and scalar segment-refine) are interpreted on symbolic samples along the path "
+      "selected by a representative of each region of the sign abstraction (sign g_k x sign g_k+1 x direction, 27 cases, "
+      "two representatives per open region) and compared with the reference predicate table and with each other; alpha "
+      "clamp, convex hit formulas, Newton clamps, stable ordering, de-duplication against the previous kept hit, "
+      "truncation and labelling are extracted the same way; every cubic site (poincare utils, synodic inline basis, RK and "
+      "symplectic dense Hermite, _Solution.interpolate) must satisfy the four Hermite end conditions and _hermite_der must "
+      "be the exact s-derivative (polynomial identities).",
+      "Trusted: kpe semantics incl. the numpy shims; representatives select a path, identities then hold on the whole "
+      "region. Not decided: measured convergence orders; tangencies beyond the predicate table.",
+      "static analysis: partial evaluation over an order-abstract (sign) domain + polynomial identities",
+      "DESIGN.md §5 C15")
+
+claim("C16", "proof",
+      "The two Hamiltonian sub-flows are evaluated with the polynomial evaluator abstracted as the gradient of an arbitrary "
+      "H: their 12x12 Jacobians satisfy M^T J M = J identically (Hessian symmetric) and they read only variables they do "
+      "not modify (exact inverse with -delta); the coupling flow is a symplectic rotation modulo c^2+s^2=1 with "
+      "M(d)M(-d)=I; the composition is read off the call sequence: ABCBA palindrome, (g,1-2g,g) triple jumps, and the "
+      "order condition 2g^(p+1)+(1-2g)^(p+1)=0 at every level reached from the public order keys, decided exactly in "
+      "radical arithmetic; driver init/output slots, signed dt, omega, gradient slot tables.",
+      "Trusted: composition of symplectic maps is symplectic; Yoshida/Suzuki triple-jump theorem; kpe view semantics. "
+      "Not decided: long-time energy behaviour, measured convergence. Known finding: gamma uses 1/(order+1).",
+      "static analysis: partial evaluation + symbolic Jacobian identities + exact radical arithmetic",
+      "DESIGN.md §5 C16")
+
 PENDING = ["C02", "C03", "C04", "C05", "C06", "C07", "C08", "C09", "C10", "C11", "C12", "C13", "C14", "C15",
            "C16", "C17", "C18", "C19", "C20"]
 
